@@ -246,6 +246,7 @@ struct Sim {
     threads: Vec<Th>,
     locs: HashMap<usize, Loc>,
     loc_ids: HashMap<usize, usize>,
+    sync_clocks: HashMap<usize, VC>,
     arenas: Vec<Arena>,
     sc: VC,
     now_ns: u64,
@@ -1200,6 +1201,38 @@ pub fn clock_acquire(slot: &VC) {
     vc_join(&mut s.threads[me].clock, slot);
 }
 
+/// Happens-before through kernel objects that are not instrumented atomics (pthread mutex, rwlock,
+/// semaphore): the releasing side publishes its clock under `key`, the acquiring side joins it.
+pub fn sync_release(key: usize) {
+    let me = me();
+    let mut g = lock();
+    let s = g.as_mut().unwrap();
+    s.threads[me].clock[me] += 1;
+    let c = s.threads[me].clock;
+    let e = s.sync_clocks.entry(key).or_insert([0; MAXT]);
+    vc_join(e, &c);
+}
+pub fn sync_acquire(key: usize) {
+    let me = me();
+    let mut g = lock();
+    let s = g.as_mut().unwrap();
+    if let Some(c) = s.sync_clocks.get(&key).cloned() {
+        vc_join(&mut s.threads[me].clock, &c);
+    }
+}
+
+/// A thread that spins (sched_yield / spin loop hint): a scheduling point that prefers somebody else.
+pub fn spin_hint() {
+    {
+        let me = me();
+        let mut g = lock();
+        let s = g.as_mut().unwrap();
+        let lim = s.cfg.spin_limit;
+        s.threads[me].consec = s.threads[me].consec.max(lim + 1);
+    }
+    yield_point(0x7ff);
+}
+
 pub fn now_ns() -> u64 {
     let g = lock();
     g.as_ref().unwrap().now_ns
@@ -1289,6 +1322,7 @@ pub fn run<F: FnOnce() + Send + 'static>(cfg: RunCfg, decisions: Decisions, body
         threads: Vec::new(),
         locs: HashMap::new(),
         loc_ids: HashMap::new(),
+        sync_clocks: HashMap::new(),
         arenas: Vec::new(),
         sc: [0; MAXT],
         now_ns: 1_000_000_000,
